@@ -60,7 +60,7 @@ func runC15(rm *room) {
 		c.c14.prov.store[id] = n.ev
 	}
 	r.Op()
-	switch t.Weighted([]int{6, 2, 6, 6, 6, 2, 3}) {
+	switch t.Weighted([]int{6, 2, 6, 6, 6, 2, 3, 4}) {
 	case 0:
 		c.opMakeJoin()
 	case 1:
@@ -75,6 +75,8 @@ func runC15(rm *room) {
 		c.opPerformInvite()
 	case 6:
 		c.opInviteV3()
+	case 7:
+		c.opSendJoinPseudo()
 	}
 }
 
